@@ -103,12 +103,13 @@ func init() {
 	})
 	register(&Property{
 		ID: "C37",
-		Explanation: "Decides the structure that enforces the limits: (token-paired) every backend.Backend method that takes a Handle (Save, Load, Stat, Remove) is overridden by connectionLimitedBackend, and in each the forwarded call is reachable only after `defer be.typeDependentLimit(h.Type)()` — the token is taken before the operation and released at every exit — with the limit chosen by the handle's own Type; (lock-bypass) in typeDependentLimit GetToken and the freeze lock are reachable only on the t != LockFile edge, a return without any blocking call exists for lock files, the token is taken before waiting on the freeze lock, the freeze lock is only passed through (deferred Unlock), and the non-lock branch returns sem.ReleaseToken after GetToken; Freeze/Unfreeze acquire/release the same freeze lock; the semaphore is a channel of capacity Properties().Connections where GetToken deposits and ReleaseToken withdraws exactly one token. Not decided: fairness and liveness under contention.",
+		Explanation: "Decides the structure that enforces the limits: (token-paired) every backend.Backend method that takes a Handle (Save, Load, Stat, Remove) is overridden by connectionLimitedBackend, and in each the forwarded call is reachable only after `defer be.typeDependentLimit(h.Type)()` — the token is taken before the operation and released at every exit — with the limit chosen by the handle's own Type; (lock-bypass) in typeDependentLimit GetToken and the freeze lock are reachable only on the t != LockFile edge, a return without any blocking call exists for lock files, the token is taken before waiting on the freeze lock, and the non-lock branch returns sem.ReleaseToken after GetToken; Freeze/Unfreeze acquire/release the same freeze lock; the semaphore is a channel of capacity Properties().Connections where GetToken deposits and ReleaseToken withdraws exactly one token; (freeze-gate-held) the freeze lock taken at the gate would have to stay held (or be a read lock held) until the operation is over for 'while frozen no new operation starts' to hold under every interleaving — typeDependentLimit gives it back before it returns, so an operation that has passed the gate starts its wrapped call also after Freeze() returned: a genuine gap, demonstrated (findings/C37), listed as a known finding because closing it makes Freeze wait for every transfer in flight. Not decided: fairness and liveness under contention.",
 		Assumptions: append([]string{"a buffered channel of capacity n admits at most n undelivered sends"}, commonAssumptions...),
 		Technique:   "static analysis: interface-method coverage + CFG cuts on the defer/acquire pattern (go/ssa, go/types)",
 		Run: func(c *eng.Ctx) {
 			ruleSemaWrapped(c)
 			ruleLockBypass(c)
+			ruleFreezeGateHeld(c)
 		},
 		Controls: []Control{
 			{Name: "stat-without-token", File: "internal/backend/sema/backend.go",
